@@ -598,3 +598,9 @@ impl ContentLength {
         matches!(*self, Self::Head)
     }
 }
+
+#[cfg(feature = "verif")]
+#[allow(missing_docs, dead_code, unused_imports)]
+pub(crate) mod verif_h {
+    include!(concat!(env!("H2_VERIF_DIR"), "/harness/proto/streams/stream.rs"));
+}
